@@ -8,8 +8,10 @@ import coqlit as L
 import ftutil as U
 
 ID = "C09"
-THEOREMS = ["C09_flatten", "C09_flatten_closed_form", "C09_below", "C09_unflatten",
-            "C09_unflatten_inverts_point", "C09_unflatten_flatten_partial", "C09_swizzle_items_partial",
+THEOREMS = ["C09_flatten", "C09_flatten_closed_form", "C09_below", "C09_below_perm", "C09_unflatten",
+            "C09_unflatten_inverts_point", "C09_flatten_in_unflatten_domain", "C09_unflatten_flatten",
+            "C09_swizzle", "C09_swizzle_perm", "C09_swizzle_wf", "C09_swizzle_inv", "C09_rebuild",
+            "C09_swap_fiber", "C09_swap", "C09_swap_point_map",
             "C09_order", "C09_oracle_sound", "C09_model_meets_spec_partial"]
 COQ_IMPORTS = "From FT Require Import Model.Base Model.Obs Model.C09Transform Model.C09Check."
 CHECK_VO = ["Model/C09Check.v"]
